@@ -46,6 +46,15 @@ CLAIMED = {
     "C14": ("4 C14", "property-based testing (rapid): generated order-sensitive programs and template trees, each rendered N times in one process (fresh load per repetition via the reset hook) and in fresh processes; metamorphic oracle: all results identical",
             "Exploration: objects with 2..12 keys printed/dumped in 8 forms (literal and data, nested); object literals / component arguments / data maps with several simultaneous faults of different kinds; pages with several undefined inserts, duplicated or undeclared slots, two or three faulty files; each 24 (trees: 12) repetitions in process, a sample also in 3 fresh processes. With Go's per-iteration random map order a two-way order dependence survives 24 repetitions with probability 2^-23.",
             "Trusted: Go's map iteration randomisation as the source of divergence (a dependence on something that only differs between machines is out of reach). shuffle() and rand() are never generated. Scratch directory names are normalised in outcomes.", "exploration"),
+    "C16": ("4 C16", "bounded exhaustive enumeration of operation histories + rapid random histories; oracle: every operation's result equals the same operation issued first after a fresh load (reset hook), configuration and caller data unchanged",
+            "Exploration: all histories of length <= 2 (quick) / 3 (thorough) over 14 operation instances {String, Response, EvaluateString, EvaluateFile} x {succeeding, failing, not found} under 6 configurations (debug x custom error page none/working/missing/failing); random histories of length 4..40. Results compared: output, error message + line + path, Response body + returned error.",
+            "Trusted: the reset hook gives the fresh-state baseline; scratch directory names are normalised. One fixed template directory (layout, component, loops, objects) is used: history independence is about call sequences, not template variety.", "exploration"),
+    "C17": ("4 C17", "property-based testing (rapid) over configurations x generated failing/succeeding pages; differential oracle against String() and against rendering the built-in error page source with the failure's fields",
+            "Exploration: {debug on/off} x {no / working / missing / failing custom error page} x pages that succeed (plain, layout+component) or fail after 1..4 uniquely marked chunks at top level, in a loop pass, in a layout insert, in a component argument, in a slot body, or do not exist. Success: nil and body == String(); failure: non-nil error, no marker of the failed page, body == custom page / empty / built-in page; debug off: no message, no path; debug on: message, path, line.",
+            "Trusted: net/http/httptest recorder as the ResponseWriter; /repo/textwire/default-error-page.tw rendered through EvaluateString as the expected built-in page.", "exploration"),
+    "C18": ("4 C18", "property-based testing (rapid) of directory trees/spellings/extensions with an exact registry oracle (hook VerifNames), plus fault enumeration: every file x {deleted, truncated at every byte prefix, garbage, dangling symlink, directory} of generated valid trees",
+            "Fault enumeration (part B): for each generated valid tree (page, layout, component, independent page) every file is damaged by every operator and truncated at every byte prefix; NewTemplate must return (nil, error) xor (template, nil) without panic/hang, and must fail naming the file when it is syntactically wrong by itself or unreadable, or naming the layout/component when absent. Exploration (part A): registered names are exactly the files ending in the extension, relative to the directory whatever its spelling; decoys, unknown names and layouts are not found; EvaluateFile == EvaluateString(content).",
+            "Trusted: 'syntactically wrong by itself' is decided by parsing the damaged content alone with /repo's parser (so a truncation that leaves a valid template carries no obligation); we run as root, so permission bits cannot make a file unreadable: dangling symlinks and directories stand in.", "fault_enumeration"),
     "C19": ("4 C19", "bounded exhaustive enumeration of lexeme sequences + property-based testing (rapid) of generated multi-line templates, their prefixes and soups against an independent offset<->(line, column) index",
             "Exploration: every sequence of <= 3 (quick) / 4 (thorough) lexemes incl. CRLF, multi-line strings/comments, escapes, multi-byte text; generated valid templates with random newlines and their prefixes; soups. For each input: tokens ordered and disjoint, start/end are the first/last byte, the source range is the token's own text, gaps are whitespace or complete comments, EOF just past the last byte, and every byte position is contained in exactly the covering token.",
             "Trusted: lib/reftext index and escape classification. Inputs containing NUL are excluded (lexer's end marker). After an ILLEGAL token nothing is asserted. The literal of a text token next to the unsettled '\\{{{' overlap is not compared.", "exploration"),
